@@ -58,6 +58,11 @@ def get_sparse_operator(operator: PauliRepresentation, n_qubits: Optional[int] =
 
     # Construct the Scipy sparse matrix.
     n_hilbert = 2**n_qubits
+
+    if len(operator.terms) == 0:
+        # The empty sum is the zero operator.
+        return scipy.sparse.csc_matrix((n_hilbert, n_hilbert), dtype=complex)
+
     values_list: List[numpy.ndarray] = []
     row_list: List[numpy.ndarray] = []
     column_list: List[numpy.ndarray] = []
